@@ -365,15 +365,13 @@ def test_dirs(options, seen):
 def walk_with_symlinks(options, dir):
     # TODO -- really should have test of this that uses symlinks
     #         this is hard on a number of levels ...
-    for dirpath, dirs, files in os.walk(dir):
+    # Symlinked directories are walked like real ones, at their place in
+    # the sorted order (and after any pruning of ``dirs`` by the caller).
+    for dirpath, dirs, files in os.walk(dir, followlinks=True):
         dirs.sort()
         files.sort()
         dirs[:] = [d for d in dirs if d not in options.ignore_dir]
         yield (dirpath, dirs, files)
-        for d in dirs:
-            p = os.path.join(dirpath, d)
-            if os.path.islink(p):
-                yield from walk_with_symlinks(options, p)
 
 
 compiled_suffixes = '.pyc', '.pyo'
